@@ -376,6 +376,19 @@ pub fn run(ctx: &Ctx) -> i32 {
             .extra("exploration", rex)
             .extra("deviation_bound_completed", json!(rbound)),
     );
+    // the operating system as source and sink: regular files, named pipes (no usable stat size), existing longer destinations
+    {
+        let mut acc = Acc::new();
+        for (i, s) in subs_.iter().enumerate() {
+            acc.evals += 1;
+            let before = acc.viols.len();
+            crate::oracles::oracle_file_api("path-io", &s.canon, i as u64, &|| json!({"subject": s.name}), &mut acc);
+            if acc.viols.len() == before {
+                acc.nontrivial += 1;
+            }
+        }
+        reports.push(SubReport::new("path-io", "A", "every subject through the path-based entry points: Package::open / PackageMetadata::open on a regular file and on a named pipe (delivery in pipe-sized pieces, no usable stat size) must give the package parsed from memory; write_file over existing longer files must give exactly the canonical bytes", acc));
+    }
     for r in &reports {
         if r.acc.nontrivial == 0 {
             crate::ctx::machinery(&format!("sub-check {} explored nothing: vacuous", r.name));
